@@ -689,11 +689,12 @@ func lifeScenarios(focus string, seed int64, tier string, out *sx.Out) {
 			{3, true, 1, false, 0, 5}, {8, false, 0, true, 4, 5}, {3, false, 1, true, 0, 5}, {0, true, 1, false, 0, 4}, {0, false, 2, false, 0, 3},
 			{6, true, 1, true, 6, 5}}
 		// end kinds: 0 normal, 1 0x04, 2 net close, 3 second CONNECT, 4 takeover clean 0, 5 takeover clean 1,
-		// 6 DISCONNECT with another reason (0x80), 7 DISCONNECT raising a zero expiry (protocol error)
+		// 6 DISCONNECT with another reason (0x80), 7 DISCONNECT raising a zero expiry (protocol error),
+		// 8 DISCONNECT 0x04 raising a non-zero expiry above the will delay
 		for _, w := range wcs {
-			for end := 0; end <= 7; end++ {
+			for end := 0; end <= 8; end++ {
 				for _, after := range []int{0, 1, 2, 3, 4} { // 0 ticks only, 1 resume before due, 2 clean reconnect before due, 3 resume after due, 4 session expires before the will tick
-					if w.ver < 5 && (end == 1 || end == 6 || end == 7) {
+					if w.ver < 5 && (end == 1 || end == 6 || end == 7 || end == 8) {
 						continue
 					}
 					if !thorough && w.delay == 0 && after > 1 {
@@ -731,9 +732,14 @@ func lifeScenarios(focus string, seed int64, tier string, out *sx.Out) {
 							h.opDisconnect(a, 0x80, false, 0)
 						case 7:
 							h.opDisconnect(a, 0, true, 9)
+						case 8:
+							h.opDisconnect(a, 4, true, 30)
 						}
 						tEnd := h.now()
 						due := tEnd + int64(w.delay)
+						if end == 8 {
+							h.opTick("will", tEnd+int64(w.sei)+2)
+						}
 						if after == 1 || after == 2 {
 							h.opTick("will", due-1)
 							v2 := stdConnect("a", 5, after == 2)
